@@ -9,8 +9,9 @@ SKIPS = ("addSkip", "addSubSkip")
 
 
 class Window:
-    def __init__(self, tid):
+    def __init__(self, tid, nth=0):
         self.tid = tid
+        self.nth = nth            # how many times this test has been entered before in this process
         self.phases = []
         self.complete = False
 
@@ -19,9 +20,11 @@ def windows(evs):
     """per-process list of test windows in execution order"""
     out = []
     cur = None
+    seen = {}
     for e in evs:
         if e[0] == "tstart":
-            cur = Window(e[1])
+            cur = Window(e[1], seen.get(e[1], 0))
+            seen[e[1]] = cur.nth + 1
             out.append(cur)
         elif e[0] == "tend" and cur is not None:
             cur.complete = True
@@ -45,8 +48,14 @@ def executed_ops(ops, phases):
     return res
 
 
+def calls_of(w, ops):
+    """the result calls unittest made during window `w` (later runs of a flaky test use its calm script)"""
+    script = ops[(w.tid, "calm")] if (w.nth > 0 and (w.tid, "calm") in ops) else ops[w.tid]
+    return executed_ops(script, w.phases) if not w.complete else [o for o in script if isinstance(o, str)]
+
+
 def window_counts(w, ops, tests):
-    calls = executed_ops(ops[w.tid], w.phases) if not w.complete else [o for o in ops[w.tid] if isinstance(o, str)]
+    calls = calls_of(w, ops)
     return {
         "ran": tests[w.tid]["count"],
         "fail": sum(1 for c in calls if c in BAD_FAIL),
